@@ -1,5 +1,6 @@
 (* C19 - Re-running analysis on an unchanged project is idempotent and cache-transparent. *)
-From Gleece Require Import Base.Bytes Model.Session Proofs.SessionProofs.
+From Gleece Require Import Base.Bytes Model.Session Proofs.SessionProofs Model.Graph Proofs.GraphProofs
+     Proofs.SessionGraphProofs.
 From Coq Require Import String.
 
 (* memoised import serials: a second reduction pass over the same keys on the same provider
@@ -12,6 +13,28 @@ Proof. exact serials_idempotent. Qed.
 Theorem C19_serials_all_rounds : forall n pv keys ns,
   In ns (snd (rounds n pv keys)) -> ns = snd (reduce_pass pv keys).
 Proof. exact serials_stable_all_rounds. Qed.
+
+(* the symbol graph: replaying any builder calls of the first analysis round, in any order and any
+   number of times, on the graph that round produced leaves it unchanged - exactly (state
+   equality) for node/edge insertions, and as a set of nodes and (from, kind, to) edges for all
+   insertion requests (struct / field / enum included), given that the project is unchanged
+   (every symbol is added under a single file version) *)
+Theorem C19_graph_replay : forall sc h h',
+  forallb is_simple_add h = true -> version_coherent h = true ->
+  (forall o, In o h' -> In o h) ->
+  fold_left (step sc) h' (run sc h) = run sc h.
+Proof. exact graph_replay_identity_sub. Qed.
+
+Theorem C19_graph_replay_rounds : forall sc h n,
+  forallb is_simple_add h = true -> version_coherent h = true ->
+  Nat.iter n (fun s => fold_left (step sc) h s) (run sc h) = run sc h.
+Proof. exact graph_replay_identity_iter. Qed.
+
+Theorem C19_graph_replay_abs : forall sc h h',
+  sched_ok sc -> forallb is_add h = true -> ops_coherent h = true -> ops_noerr h = true ->
+  (forall o, In o h' -> In o h) ->
+  abs (fold_left (step sc) h' (run sc h)) = abs (run sc h).
+Proof. exact graph_replay_identity_abs. Qed.
 
 (* the oracle evaluated on the observed round summaries *)
 Theorem C19_oracle_spec : forall rs f,
@@ -27,5 +50,8 @@ Proof. exact serials_demo. Qed.
 
 Print Assumptions C19_serials_idempotent.
 Print Assumptions C19_serials_all_rounds.
+Print Assumptions C19_graph_replay.
+Print Assumptions C19_graph_replay_rounds.
+Print Assumptions C19_graph_replay_abs.
 Print Assumptions C19_oracle_spec.
 Print Assumptions C19_nonvacuous.
